@@ -258,31 +258,56 @@ def extract_pair_guard():
             'def pairGuard (ms : Int) (ei ej : PRow) : Act :=\n' + body + '\nend G.Gen\n')
 
 
-def generate() -> tuple[bool, str]:
-    log = []
-    try:
-        GGEN.mkdir(exist_ok=True)
-        face, diag = extract_moves()
-        moves = ('/-! GENERATED by harness/translate.py from src/gemdat/path.py (free_energy_graph) — do not edit -/\n'
-                 'namespace G.Gen\n'
-                 f'def movesFace : List (Int × Int × Int) := {lean_triples(face)}\n'
-                 f'def movesDiag : List (Int × Int × Int) := {lean_triples(diag)}\n'
-                 'end G.Gen\n')
-        _write(GGEN / 'Moves.lean', moves)
-        info = loader_info()
-        lines = ['/-! GENERATED by harness/translate.py from src/gemdat/trajectory.py (loaders) — do not edit -/', 'namespace G.Gen']
-        for name, (params, keyed, used) in sorted(info.items()):
-            lines.append(f'def {name}_params : List String := {lean_strs(params)}')
-            lines.append(f'def {name}_keyed : List String := {lean_strs(keyed)}')
-            lines.append(f'def {name}_used : List String := {lean_strs(used)}')
-        lines.append('end G.Gen')
-        _write(GGEN / 'CacheKeys.lean', '\n'.join(lines) + '\n')
-        _write(GGEN / 'JumpStep.lean', extract_jump_step())
-        _write(GGEN / 'PairGuard.lean', extract_pair_guard())
-        log.append(f'moves: {len(face)} face + {len(diag)} diagonal; loaders: ' + '; '.join(f'{k}: keyed={v[1]} used={v[2]}' for k, v in sorted(info.items())))
-        return True, '\n'.join(log)
-    except Exception as e:  # noqa: BLE001
-        return False, f'{type(e).__name__}: {e}'
+def _slice_moves():
+    face, diag = extract_moves()
+    return ('/-! GENERATED by harness/translate.py from src/gemdat/path.py (free_energy_graph) — do not edit -/\n'
+            'namespace G.Gen\n'
+            f'def movesFace : List (Int × Int × Int) := {lean_triples(face)}\n'
+            f'def movesDiag : List (Int × Int × Int) := {lean_triples(diag)}\n'
+            'end G.Gen\n')
+
+
+def _slice_cache_keys():
+    info = loader_info()
+    lines = ['/-! GENERATED by harness/translate.py from src/gemdat/trajectory.py (loaders) — do not edit -/', 'namespace G.Gen']
+    for name, (params, keyed, used) in sorted(info.items()):
+        lines.append(f'def {name}_params : List String := {lean_strs(params)}')
+        lines.append(f'def {name}_keyed : List String := {lean_strs(keyed)}')
+        lines.append(f'def {name}_used : List String := {lean_strs(used)}')
+    lines.append('end G.Gen')
+    return '\n'.join(lines) + '\n'
+
+
+STRUCTURAL = {'Moves': _slice_moves, 'CacheKeys': _slice_cache_keys, 'JumpStep': extract_jump_step, 'PairGuard': extract_pair_guard}
+
+
+def generate(names=None) -> tuple[bool, str]:
+    """(re)write lean/GGen/<name>.lean for the named slices (default: all) from /repo's current source.
+    Slices are independent: one that cannot be translated is written as a stub without definitions (so exactly the proof
+    modules stating its obligations stop building) and makes the result not-ok for the checks that asked for it."""
+    from . import formulas
+    GGEN.mkdir(exist_ok=True)
+    names = list(names) if names is not None else list(STRUCTURAL) + list(formulas.SLICES)
+    ok, log = True, []
+    for nm in names:
+        if nm in STRUCTURAL:
+            try:
+                _write(GGEN / f'{nm}.lean', STRUCTURAL[nm]())
+                log.append(f'{nm}: ok')
+            except Exception as e:  # noqa: BLE001
+                ok = False
+                _write(GGEN / f'{nm}.lean', formulas.stub(f'{nm}: {type(e).__name__}: {e}'))
+                log.append(f'{nm}: {type(e).__name__}: {e}')
+        else:
+            good, text, msg = formulas.render(nm)
+            _write(GGEN / f'{nm}.lean', text)
+            ok = ok and good
+            log.append(msg if not good else f'{nm}: ok')
+    return ok, '; '.join(log)
+
+
+def gen_for(*names):
+    return lambda: generate(names)
 
 
 def _write(path: Path, text: str):
